@@ -576,14 +576,18 @@ func checkC13(p *DBPlan, rc *simkit.RunCtx) {
 						return
 					}
 				}
-				if !cancelled {
-					// an error ends the request: no records or notifications after it
-					for i, t := range types {
-						if t == "error" && i != len(types)-1 {
-							bad("replies after the error that ended the request")
+				// an error (before any cancel) ends the request: no records or notifications after it
+				for i, r := range reps {
+					if r.Type != "error" || (req.CancelledAt != 0 && r.Seq > req.CancelledAt) {
+						continue
+					}
+					for _, r2 := range reps[i+1:] {
+						if r2.Type == "ok" || r2.Type == "upd" || r2.Type == "new" || r2.Type == "del" {
+							bad("records or notifications after the error that ended the request")
 							return
 						}
 					}
+					break
 				}
 				if !hasType(types, "done") && !hasType(types, "error") {
 					bad("never ended")
